@@ -61,7 +61,7 @@ extern (*DataProcessor).applyHavingFilter
   modifies allmaps
 
 extern (*Stream).applyOrderBy
-  props C07
+  props C07 C05
   modifies allmaps
 
 func (*Stream).hasAnalyticFields
@@ -270,19 +270,98 @@ func (*Stream).evalAnalytic
 func (*Stream).applyWhereAndAnalytic
   props C20 C05 C14
   modifies mapof(dataMap), s.analytic
+  observe w := Evaluate
+  before Evaluate where-sees-this-row: $arg1 == boxof(dataMap, map[string]any)
+  ensures a-row-passes-exactly-when-where-is-true-for-it: keep <==> (s.filter == nil || $w)
   ensures nothing-to-inject-nothing-written: len(s.config.AnalyticFields) == 0 && len(s.config.WhereAnalyticCalls) == 0 ==> mapUnchanged(dataMap)
   ensures where-false-yields-nothing: !keep ==> analyticResults == nil
 
-extern (*Stream).projectDirectRow
+// ---------------------------------------------------------------- C05: stateless row-wise filter and projection
+pred finfo(s, spec) := s.compiledFieldInfo[spec]
+pred otherKeysKept(result, key) := forallv(k, "", k != key ==> (dom(result, k) <==> old(dom(result, k))) && result[k] == old(result[k]))
+
+extern (*Stream).executeFunction
+  props C05
+
+extern (*Stream).processSingleFieldFallback
+  props C05
+  modifies mapof(result)
+
+extern (*Stream).processExpressionField
+  props C05 C20
+  modifies mapof(result)
+
+func (*Stream).processSimpleField
+  props C05
+  requires result != nil && result != dataMap
+  modifies mapof(result)
+  ensures the-row-is-only-read: mapUnchanged(dataMap)
+  ensures plain-column-is-copied-or-null: dom(s.compiledFieldInfo, fieldSpec) && finfo(s, fieldSpec) != nil && !finfo(s, fieldSpec).isSelectAll && !dom(s.config.FieldExpressions, finfo(s, fieldSpec).outputName) && !finfo(s, fieldSpec).isStringLiteral && !finfo(s, fieldSpec).isFunctionCall && !finfo(s, fieldSpec).hasNestedField ==> dom(result, finfo(s, fieldSpec).outputName) && result[finfo(s, fieldSpec).outputName] == ite(dom(dataMap, finfo(s, fieldSpec).fieldName), dataMap[finfo(s, fieldSpec).fieldName], nil) && otherKeysKept(result, finfo(s, fieldSpec).outputName)
+  ensures nested-path-is-looked-up-or-null: dom(s.compiledFieldInfo, fieldSpec) && finfo(s, fieldSpec) != nil && !finfo(s, fieldSpec).isSelectAll && !dom(s.config.FieldExpressions, finfo(s, fieldSpec).outputName) && !finfo(s, fieldSpec).isStringLiteral && !finfo(s, fieldSpec).isFunctionCall && finfo(s, fieldSpec).hasNestedField ==> dom(result, finfo(s, fieldSpec).outputName) && result[finfo(s, fieldSpec).outputName] == ite(second(fieldpath.GetNestedField(data, finfo(s, fieldSpec).fieldName)), fieldpath.GetNestedField(data, finfo(s, fieldSpec).fieldName), nil) && otherKeysKept(result, finfo(s, fieldSpec).outputName)
+  ensures string-literal-under-its-alias: dom(s.compiledFieldInfo, fieldSpec) && finfo(s, fieldSpec) != nil && !finfo(s, fieldSpec).isSelectAll && !dom(s.config.FieldExpressions, finfo(s, fieldSpec).outputName) && finfo(s, fieldSpec).isStringLiteral ==> dom(result, finfo(s, fieldSpec).alias) && result[finfo(s, fieldSpec).alias] == boxof(finfo(s, fieldSpec).stringValue, string) && otherKeysKept(result, finfo(s, fieldSpec).alias)
+  ensures expression-columns-keep-their-computed-value: dom(s.compiledFieldInfo, fieldSpec) && finfo(s, fieldSpec) != nil && !finfo(s, fieldSpec).isSelectAll && dom(s.config.FieldExpressions, finfo(s, fieldSpec).outputName) ==> mapUnchanged(result)
+  ensures star-copies-every-column-not-owned-by-an-expression: dom(s.compiledFieldInfo, fieldSpec) && finfo(s, fieldSpec) != nil && finfo(s, fieldSpec).isSelectAll ==> forallv(k, "", (dom(dataMap, k) && !dom(s.config.FieldExpressions, k) ==> dom(result, k) && result[k] == dataMap[k]) && (!(dom(dataMap, k) && !dom(s.config.FieldExpressions, k)) ==> (dom(result, k) <==> old(dom(result, k))) && result[k] == old(result[k])))
+  loop 1 invariant mapUnchanged(dataMap) && forallv(k, "", ($visited[k] ==> dom(dataMap, k)) && ($visited[k] && !dom(s.config.FieldExpressions, k) ==> dom(result, k) && result[k] == dataMap[k]) && (!($visited[k] && !dom(s.config.FieldExpressions, k)) ==> (dom(result, k) <==> old(dom(result, k))) && result[k] == old(result[k])))
+
+extern (*Stream).projectAnalytic
+  props C05 C20
+  modifies mapof(result)
+  ensures nothing-analytic-nothing-added: analyticResults == nil ==> mapUnchanged(result)
+
+func (*Stream).hasOmitEmptyAnalytic
+  props C05
+  ensures only-analytic-queries-suppress-rows: len(s.config.AnalyticFields) == 0 ==> !result
+
+pred emptyMap(m) := forallv(k, "", !dom(m, k))
+
+func (*Stream).projectDirectRow
   props C20 C05
   ensures emit ==> result != nil && fresh(result)
+  ensures the-row-is-only-read: mapUnchanged(dataMap)
+  ensures non-analytic-rows-always-yield-a-result: len(s.config.AnalyticFields) == 0 ==> emit
+  ensures star-without-expressions-is-the-row-itself: len(s.config.SimpleFields) == 0 && len(s.config.FieldExpressions) == 0 && len(s.config.AnalyticFields) == 0 && analyticResults == nil ==> forallv(k, "", (dom(result, k) <==> dom(dataMap, k)) && (dom(dataMap, k) ==> result[k] == dataMap[k]))
+  before processSimpleField each-selected-column-is-read-from-this-row-into-this-result: $arg2 == dataMap && $arg3 == boxof(dataMap, map[string]any) && $arg4 == result && result != nil && fresh(result)
+  before processExpressionField each-expression-is-evaluated-on-this-row-into-this-result: $arg2 == dataMap && $arg3 == result
+  before projectAnalytic analytic-columns-go-into-this-result: $arg1 == result && $arg2 == analyticResults
+  loop 1 invariant result != nil && fresh(result) && mapUnchanged(dataMap) && (len(s.config.FieldExpressions) == 0 ==> emptyMap(result))
+  loop 2 invariant result != nil && fresh(result) && mapUnchanged(dataMap)
+  loop 3 invariant result != nil && fresh(result) && mapUnchanged(dataMap) && forallv(k, "", (dom(result, k) <==> $visited[k]) && ($visited[k] ==> result[k] == dataMap[k] && dom(dataMap, k)))
+
+func (*DataProcessor).expandUnnestResults
+  props C05
+  modifies *
+  ensures without-unnest-the-batch-is-exactly-the-row: !old(dp.stream.hasUnnestFunction) ==> len(result0) == 1 && result0[0] == result
 
 func (*Stream).processDirectDataSync
   props C20 C05
   modifies *
+  observe enriched := enrichData
+  observe analytic := applyWhereAndAnalytic
+  observe pass := applyWhereAndAnalytic#1
+  observe proj := projectDirectRow
+  observe emit := projectDirectRow#1
+  before applyWhereAndAnalytic where-is-tested-on-the-enriched-row: $arg1 == $enriched
+  before projectDirectRow projection-reads-the-same-row-and-the-analytic-values-of-this-row: $arg1 == $enriched && $arg2 == $analytic && $pass
   before callSinksAsync callers-row-untouched: mapUnchanged(data)
   before callSinksAsync sinks-get-a-fresh-row: fresh(result)
-  ensures filtered-or-suppressed-rows-yield-nothing: true
+  before callSinksAsync sinks-get-exactly-the-projection: len($arg1) == 1 && $arg1[0] == $proj && $emit && $pass
+  ensures the-returned-row-is-the-one-handed-to-the-sinks: result0 != nil ==> result0 == $proj && $pass && $emit && result1 == nil
+  ensures filtered-rows-yield-nothing: !$pass ==> result0 == nil
+
+func (*DataProcessor).processDirectData
+  props C05
+  modifies *
+  observe enriched := enrichData
+  observe analytic := applyWhereAndAnalytic
+  observe pass := applyWhereAndAnalytic#1
+  observe proj := projectDirectRow
+  observe emit := projectDirectRow#1
+  observe batch := expandUnnestResults
+  before applyWhereAndAnalytic where-is-tested-on-the-enriched-row: $arg1 == $enriched
+  before projectDirectRow projection-reads-the-same-row-and-the-analytic-values-of-this-row: $arg1 == $enriched && $arg2 == $analytic && $pass
+  before expandUnnestResults the-projection-is-what-gets-delivered: $arg1 == $proj && $emit && $pass
+  before sendResultNonBlocking the-channel-gets-the-batch: $arg1 == $batch
+  before callSinksAsync the-sinks-get-the-same-batch-as-the-channel: $arg1 == $batch
 
 func (*DataProcessor).processItem
   props C20
